@@ -192,6 +192,11 @@ type batch struct {
 	main     *bed.Stub
 	off      *bed.Stub
 	dying    *bed.Stub
+	second   *bed.Stub // a second enabled endpoint (requests for "secondpods"), removable from the server list
+	noSecond bool
+	sibName  string // a second max-in-flight schema (requests for "sibpods" on main) whose name nearly collides with hot
+	sibMax   int32
+	noSib    bool
 	rel      *releases
 	M        int32
 	violated bool
@@ -210,13 +215,21 @@ func (b *batch) object(hotCfg cfg, fillerMax int32) *proxyv1alpha1.UpstreamClust
 	if b.dying != nil {
 		servers = append(servers, b.dying.URL)
 	}
-	mk := func(resource string, subset []string) proxyv1alpha1.DispatchPolicy {
-		return proxyv1alpha1.DispatchPolicy{Strategy: proxyv1alpha1.RoundRobin, UpstreamSubset: subset, FlowControlSchemaName: hot,
+	mkS := func(resource string, subset []string, schema string) proxyv1alpha1.DispatchPolicy {
+		return proxyv1alpha1.DispatchPolicy{Strategy: proxyv1alpha1.RoundRobin, UpstreamSubset: subset, FlowControlSchemaName: schema,
 			Rules: []proxyv1alpha1.DispatchPolicyRule{{Verbs: []string{"*"}, APIGroups: []string{"*"}, Resources: []string{resource}}}}
 	}
+	mk := func(resource string, subset []string) proxyv1alpha1.DispatchPolicy { return mkS(resource, subset, hot) }
 	pols := []proxyv1alpha1.DispatchPolicy{mk("offpods", []string{b.off.URL})}
 	if b.dying != nil {
 		pols = append(pols, mk("dyingpods", []string{b.dying.URL}))
+	}
+	if b.second != nil && !b.noSecond {
+		servers = append(servers, b.second.URL)
+		pols = append(pols, mk("secondpods", []string{b.second.URL}))
+	}
+	if b.sibName != "" && !b.noSib {
+		pols = append(pols, mkS("sibpods", []string{b.main.URL}, b.sibName))
 	}
 	pols = append(pols, bed.CatchAllPolicy([]string{b.main.URL}, hot))
 	var schemas []proxyv1alpha1.FlowControlSchema
@@ -227,6 +240,9 @@ func (b *batch) object(hotCfg cfg, fillerMax int32) *proxyv1alpha1.UpstreamClust
 		schemas = append(schemas, tbSchema(hot, 1000000, 1000000))
 	case kExempt:
 		schemas = append(schemas, exemptSchema(hot))
+	}
+	if b.sibName != "" && !b.noSib {
+		schemas = append(schemas, mifSchema(b.sibName, b.sibMax))
 	}
 	schemas = append(schemas, mifSchema(filler, fillerMax))
 	return bed.BuildCluster(bed.ClusterSpec{Name: b.host, Servers: servers, Disabled: map[string]bool{b.off.URL: true}, Policies: pols, Schemas: schemas})
@@ -258,9 +274,11 @@ type pending struct {
 func (b *batch) newID() string { return fmt.Sprintf("c05-%d", atomic.AddInt64(&b.env.idn, 1)) }
 
 // start sends one request in the background.
-func (b *batch) start(mode string) *pending {
+func (b *batch) start(mode string) *pending { return b.startOn(mode, "pods") }
+
+// startOn sends one request for the given resource (the dispatch policies route by resource) in the background.
+func (b *batch) startOn(mode, resource string) *pending {
 	id := b.newID()
-	resource := "pods"
 	method := "GET"
 	var body io.Reader
 	switch mode {
@@ -291,12 +309,17 @@ func (b *batch) seen(id string) bool {
 	if b.main.CountID(id) > 0 {
 		return true
 	}
+	if b.second != nil && b.second.CountID(id) > 0 {
+		return true
+	}
 	return b.dying != nil && b.dying.CountID(id) > 0
 }
 
 // hold starts a stream that stays in flight until released; returns (pending, admitted, ok=false on watchdog).
-func (b *batch) hold() (*pending, bool, bool) {
-	p := b.start("hold")
+func (b *batch) hold() (*pending, bool, bool) { return b.holdOn("pods") }
+
+func (b *batch) holdOn(resource string) (*pending, bool, bool) {
+	p := b.startOn("hold", resource)
 	var early *outcome
 	ok := vkit.WaitFor(watchdog, func() bool {
 		if b.seen(p.id) {
@@ -359,7 +382,7 @@ func (b *batch) probe(limit int, held int, requireFill bool, sigTail string, wit
 		}
 		if !admitted {
 			b.env.r.Violation("C05/e2e/slot-not-given-back/"+sigTail,
-				fmt.Sprintf("limit %d, %d streams in flight, every other request finished: stream number %d was answered 429, a slot was not given back (%s)", limit, k, k+1, sigTail), witness())
+				fmt.Sprintf("limit %d, %d streams in flight, every other request finished: stream number %d was answered 429: a slot that must be free is not (%s)", limit, k, k+1, sigTail), witness())
 			b.violated = true
 			return mine, true
 		}
@@ -406,8 +429,9 @@ func endToEnd(r *vkit.R) {
 	env := &e2eEnv{r: r, gw: gw, hc: hc, tok: gw.Tokens.Add(&user.DefaultInfo{Name: "alice"})}
 
 	nEnd := count(r.Quick(), 78, 1300, 260)
-	scen := []string{"type-toggle-tokenBucket", "type-toggle-exempt", "admitted-as-tokenBucket", "delete-re-add", "resize-down", "resize-up", "noop-update"}
-	nScen := count(r.Quick(), 14, 280, 70)
+	scen := []string{"type-toggle-tokenBucket", "type-toggle-exempt", "admitted-as-tokenBucket", "delete-re-add", "resize-down", "resize-up", "noop-update",
+		"endpoint-removed", "near-collision-sibling"}
+	nScen := count(r.Quick(), 27, 360, 90)
 	r.Parallel(nEnd+nScen, 6, func(i int, g *vkit.Rand) {
 		b := &batch{env: env, host: fmt.Sprintf("c05e2e%d.test", i), rel: &releases{m: map[string]chan struct{}{}}}
 		b.main, b.off = bed.NewStub("main"), bed.NewStub("off")
@@ -425,9 +449,20 @@ func endToEnd(r *vkit.R) {
 			b.M = int32(1 + (i/len(endings))%3)
 		} else {
 			scenario = scen[(i-nEnd)%len(scen)]
+			round := (i - nEnd) / len(scen)
 			b.M = 1
-			if scenario == "resize-down" {
+			switch scenario {
+			case "resize-down":
 				b.M = 2
+			case "endpoint-removed":
+				b.M = int32(2 + round%2)
+				b.second = bed.NewStub("second")
+				defer b.second.Close()
+				b.second.SetResponder(responder(b.rel))
+			case "near-collision-sibling":
+				nn := nearNames[round%len(nearNames)]
+				b.sibName, b.sibMax = nn.Name, 2
+				scenario += "=" + nn.Class
 			}
 		}
 		cur := cfg{Kind: kMIF, Max: b.M}
@@ -536,6 +571,15 @@ func endToEnd(r *vkit.R) {
 			if i == 0 {
 				r.Sample(witness())
 			}
+			return
+		}
+
+		if scenario == "endpoint-removed" {
+			b.endpointRemoved(g, witness)
+			return
+		}
+		if b.sibName != "" {
+			b.nearCollisionSibling(scenario, witness)
 			return
 		}
 
@@ -654,4 +698,119 @@ func endToEnd(r *vkit.R) {
 	})
 	r.Count("e2e_transport_panics_injected", int(atomic.LoadInt64(&env.rtPanics)))
 	r.Count("e2e_transport_errors_injected", int(atomic.LoadInt64(&env.rtFails)))
+}
+
+// endpointRemoved: H streams are held on the main endpoint; the remaining M-H slots are taken by streams proxied to a second
+// endpoint, which is then removed from the server list (its context is cancelled and the dispatcher tears the requests
+// down). Each of them must give its slot back exactly once: with the H streams still in flight exactly M-H more are admitted.
+func (b *batch) endpointRemoved(g *vkit.Rand, witness func() map[string]interface{}) {
+	r := b.env.r
+	H := 1 + g.Intn(int(b.M)-1)
+	var held []*pending
+	for k := 0; k < H; k++ {
+		p, admitted, ok := b.hold()
+		if !ok || !admitted {
+			r.Inconclusive("setup: stream on the main endpoint not admitted on a fresh limiter")
+			return
+		}
+		held = append(held, p)
+	}
+	var doomed []*pending
+	for k := H; k < int(b.M); k++ {
+		p, admitted, ok := b.holdOn("secondpods")
+		if !ok || !admitted {
+			r.Inconclusive("setup: stream on the second endpoint not admitted below the limit")
+			return
+		}
+		if b.second.CountID(p.id) == 0 {
+			r.Inconclusive("setup: the stream for the second endpoint was proxied elsewhere")
+			return
+		}
+		doomed = append(doomed, p)
+	}
+	b.noSecond = true
+	if !b.apply(cfg{Kind: kMIF, Max: b.M}, 1) {
+		return
+	}
+	b.note("second endpoint removed from the server list with %d stream(s) proxied to it, %d held on the main endpoint", len(doomed), H)
+	for _, p := range doomed {
+		o, ok := b.finish(p)
+		if !ok {
+			r.Inconclusive("watchdog: a stream to a removed endpoint was not torn down")
+			return
+		}
+		b.note("stream %s on the removed endpoint ended: status %d err=%v", p.id, o.status, o.err != nil)
+		r.Count("e2e_streams_ended_by_endpoint_removal", 1)
+	}
+	if !b.inflightIs(int64(H)) {
+		r.Inconclusive("watchdog: handlers of the torn-down streams did not return")
+		return
+	}
+	mine, ok := b.probe(int(b.M), H, true, "ending=endpoint-removed", witness)
+	if !ok {
+		return
+	}
+	if !b.releaseAll(append(held, mine...)) || !b.inflightIs(0) {
+		r.Inconclusive("watchdog: streams did not drain")
+		return
+	}
+	mine, ok = b.probe(int(b.M), 0, true, "ending=endpoint-removed/after-drain", witness)
+	if !ok {
+		return
+	}
+	b.releaseAll(mine)
+	r.Count("e2e_endpoint_removed_scenarios", 1)
+	r.Distinct(vkit.Hash64("e2e-epremoved", fmt.Sprint(b.M, H)))
+}
+
+// nearCollisionSibling: hot (limit 1) and a schema whose name nearly collides with it (limit 2) in one cluster.
+func (b *batch) nearCollisionSibling(scenario string, witness func() map[string]interface{}) {
+	r := b.env.r
+	tail := "scenario=" + scenario
+	// exhaust the sibling
+	var sib []*pending
+	for k := 0; k < int(b.sibMax); k++ {
+		p, admitted, ok := b.holdOn("sibpods")
+		if !ok {
+			r.Inconclusive("watchdog: sibling stream got no answer")
+			return
+		}
+		if !admitted {
+			b.violated = true
+			r.Violation("C05/e2e/slot-not-given-back/"+tail+"/sibling-fresh",
+				fmt.Sprintf("schema %q (limit %d) next to %q (limit 1), nothing in flight: stream number %d under %q was answered 429", b.sibName, b.sibMax, hot, k+1, b.sibName), witness())
+			b.releaseAll(sib)
+			return
+		}
+		sib = append(sib, p)
+	}
+	// isolation: the hot schema has nothing in flight, so its one slot is free whatever the sibling does; then the next is 429
+	mine, ok := b.probe(1, 0, true, tail+"/other-exhausted", witness)
+	if !ok {
+		return
+	}
+	// delete the sibling while streams are in flight: the hot schema keeps its limit (1 in flight => next is 429)
+	b.noSib = true
+	if !b.apply(cfg{Kind: kMIF, Max: 1}, 1) {
+		return
+	}
+	b.note("schema %q deleted", b.sibName)
+	if len(mine) == 1 {
+		more, ok := b.probe(1, 1, false, tail+"/other-deleted", witness)
+		if !ok {
+			return
+		}
+		mine = append(mine, more...)
+	}
+	if !b.releaseAll(append(sib, mine...)) || !b.inflightIs(0) {
+		r.Inconclusive("watchdog: streams did not drain")
+		return
+	}
+	mine, ok = b.probe(1, 0, true, tail+"/other-deleted/after-drain", witness)
+	if !ok {
+		return
+	}
+	b.releaseAll(mine)
+	r.Count("e2e_near_collision_scenarios", 1)
+	r.Distinct(vkit.Hash64("e2e-near", scenario))
 }
